@@ -19,7 +19,7 @@ from vfacts import strip, walk, method_name, must_pass_through, known_facts, is_
 from .prov import var_table, local_sources
 
 RULE = 'REFCNT'
-FLOOR = 18
+FLOOR = 15
 ANCHORS = ['OndriksMTBDD::spawnInternal', 'OndriksMTBDD::recursivelyDeleteMTBDDNode', 'OndriksMTBDD::operator=']
 RELEASERS = {'recursivelyDeleteMTBDDNode', 'disposeOfLeafNode', 'disposeOfInternalNode'}
 RESTRICTED = {'DecrementLeafRefCnt', 'DecrementInternalRefCnt', 'DeleteLeafNode', 'DeleteInternalNode', 'disposeOfLeafNode', 'disposeOfInternalNode'}
